@@ -362,18 +362,18 @@ func (fr *Frame) constVal(c *ssa.Const) Val {
 		switch {
 		case u.Info()&types.IsBoolean != 0:
 			if constant.BoolVal(c.Value) {
-				return Val{t, []Term{tTrue}}
+				return Val{T: t, S: []Term{tTrue}}
 			}
-			return Val{t, []Term{tFalse}}
+			return Val{T: t, S: []Term{tFalse}}
 		case u.Info()&types.IsInteger != 0:
-			return Val{t, []Term{tBigInt(constant.ToInt(c.Value).ExactString())}}
+			return Val{T: t, S: []Term{tBigInt(constant.ToInt(c.Value).ExactString())}}
 		case u.Info()&types.IsString != 0:
-			return Val{t, []Term{vc.strLit(constant.StringVal(c.Value))}}
+			return Val{T: t, S: []Term{vc.strLit(constant.StringVal(c.Value))}}
 		case u.Info()&types.IsFloat != 0:
 			if iv := constant.ToInt(c.Value); iv.Kind() == constant.Int {
-				return Val{t, []Term{sx("i2f", tBigInt(iv.ExactString()))}}
+				return Val{T: t, S: []Term{sx("i2f", tBigInt(iv.ExactString()))}}
 			}
-			return Val{t, []Term{vc.fltLit(c.Value.ExactString())}}
+			return Val{T: t, S: []Term{vc.fltLit(c.Value.ExactString())}}
 		}
 	case *types.TypeParam:
 		return vc.zeroVal(t)
@@ -437,12 +437,12 @@ func (fr *Frame) exec(st *State, instr ssa.Instruction) {
 		case *types.Slice:
 			es := lay.size(u.Elem())
 			fr.safety(st, "index", tAnd(tLe("0", idx), tLt(idx, base.S[2])), "index of "+x.X.Name())
-			fr.setVal(x, Val{S: []Term{base.S[0], tAdd(base.S[1], tMul(tInt(int64(es)), idx))}})
+			fr.setVal(x, Val{S: []Term{base.S[0], vc.elemOff(base.S[1], idx, es)}})
 		case *types.Pointer:
 			arr := u.Elem().Underlying().(*types.Array)
 			es := lay.size(arr.Elem())
 			fr.safety(st, "index", tAnd(tLe("0", idx), tLt(idx, tInt(arr.Len()))), "index of "+x.X.Name())
-			fr.setVal(x, Val{S: []Term{base.S[0], tAdd(base.S[1], tMul(tInt(int64(es)), idx))}})
+			fr.setVal(x, Val{S: []Term{base.S[0], vc.elemOff(base.S[1], idx, es)}})
 		default:
 			vc.reject("IndexAddr on %v", x.X.Type())
 		}
@@ -863,7 +863,7 @@ func (fr *Frame) execSlice(st *State, x *ssa.Slice) {
 			mx = base.S[3]
 		}
 		fr.safety(st, "slice-bounds", tAnd(tLe("0", lo), tLe(lo, hi), tLe(hi, mx), tLe(mx, base.S[3])), "slice bounds")
-		fr.setVal(x, Val{S: []Term{base.S[0], tAdd(base.S[1], tMul(tInt(int64(es)), lo)), tSub(hi, lo), tSub(mx, lo)}})
+		fr.setVal(x, Val{S: []Term{base.S[0], vc.elemOff(base.S[1], lo, es), tSub(hi, lo), tSub(mx, lo)}})
 	case *types.Pointer:
 		arr := u.Elem().Underlying().(*types.Array)
 		es := vc.p.lay.size(arr.Elem())
@@ -873,7 +873,7 @@ func (fr *Frame) execSlice(st *State, x *ssa.Slice) {
 			hi = tInt(arr.Len())
 		}
 		mx = tInt(arr.Len())
-		fr.setVal(x, Val{S: []Term{base.S[0], tAdd(base.S[1], tMul(tInt(int64(es)), lo)), tSub(hi, lo), tSub(mx, lo)}})
+		fr.setVal(x, Val{S: []Term{base.S[0], vc.elemOff(base.S[1], lo, es), tSub(hi, lo), tSub(mx, lo)}})
 	default:
 		vc.reject("Slice on %v", x.X.Type())
 	}
